@@ -19,9 +19,15 @@ static char fiber_join_detached_marker;
 void fiber_mark_completed(fiber_t* the_fiber, void* result) {
   atomic_store_explicit(&the_fiber->result, result, memory_order_release);
 
-  if (the_fiber->detach_state != FIBER_DETACH_DETACHED) {
-    const int old_state =
-        atomic_exchange(&the_fiber->detach_state, FIBER_DETACH_WAIT_FOR_JOINER);
+  // DETACHED is final: fiber_detach() can land at any time, so the state is
+  // only ever moved away from NONE or WAIT_TO_JOIN, by compare-and-swap
+  int old_state = atomic_load(&the_fiber->detach_state);
+  while (old_state != FIBER_DETACH_DETACHED &&
+         !atomic_compare_exchange_weak(&the_fiber->detach_state, &old_state,
+                                       FIBER_DETACH_WAIT_FOR_JOINER)) {
+    // old_state was reloaded, try again
+  }
+  if (old_state != FIBER_DETACH_DETACHED) {
     if (old_state == FIBER_DETACH_NONE) {
       // need to wait until another fiber joins this one
       fiber_manager_set_and_wait(fiber_manager_get(),
@@ -139,8 +145,16 @@ int fiber_join(fiber_t* f, void** result) {
     return FIBER_ERROR;
   }
 
-  const int old_state =
-      atomic_exchange(&f->detach_state, FIBER_DETACH_WAIT_TO_JOIN);
+  // only a fiber nobody joins yet (NONE) or a finished fiber waiting for its
+  // joiner (WAIT_FOR_JOINER) can be joined; never overwrite DETACHED or
+  // another joiner's WAIT_TO_JOIN
+  int old_state = atomic_load(&f->detach_state);
+  while ((old_state == FIBER_DETACH_NONE ||
+          old_state == FIBER_DETACH_WAIT_FOR_JOINER) &&
+         !atomic_compare_exchange_weak(&f->detach_state, &old_state,
+                                       FIBER_DETACH_WAIT_TO_JOIN)) {
+    // old_state was reloaded, try again
+  }
   if (old_state == FIBER_DETACH_NONE) {
     // need to wait till the fiber finishes
     fiber_manager_t* const manager = fiber_manager_get();
@@ -183,13 +197,13 @@ int fiber_tryjoin(fiber_t* f, void** result) {
 
   if (f->detach_state == FIBER_DETACH_WAIT_FOR_JOINER) {
     // here we've read that the fiber is waiting to be joined.
-    // if the fiber is still waiting to be joined after we atmically change its
+    // if the fiber is still waiting to be joined when we atomically change its
     // state, then we can go ahead and wake it up. if the fiber's state has
-    // changed, we can assume the fiber has been detached or has be joined by
-    // some other fiber
-    const int old_state =
-        atomic_exchange(&f->detach_state, FIBER_DETACH_WAIT_TO_JOIN);
-    if (old_state == FIBER_DETACH_WAIT_FOR_JOINER) {
+    // changed, the fiber has been detached or has been joined by some other
+    // fiber - and that state must not be overwritten
+    int old_state = FIBER_DETACH_WAIT_FOR_JOINER;
+    if (atomic_compare_exchange_strong(&f->detach_state, &old_state,
+                                       FIBER_DETACH_WAIT_TO_JOIN)) {
       // the other fiber is waiting for us to join
       if (result) {
         *result = f->result;
